@@ -2,6 +2,7 @@ package symex
 
 import (
 	"fmt"
+	"os"
 	"go/token"
 	"go/types"
 	"math/big"
@@ -648,17 +649,17 @@ func (in *Interp) binop(st *State, fr *Frame, x *ssa.BinOp) Value {
 		rt := basicOf(x.Type())
 		switch x.Op {
 		case token.ADD:
-			return wrapInt(Add(at, btm), rt)
+			return in.wrap(st, Add(at, btm), rt)
 		case token.SUB:
-			return wrapInt(Sub(at, btm), rt)
+			return in.wrap(st, Sub(at, btm), rt)
 		case token.MUL:
-			return wrapInt(Mul(at, btm), rt)
+			return in.wrap(st, Mul(at, btm), rt)
 		case token.QUO:
 			in.require(st, Ne(btm, IntC(0)), "integer divide by zero")
-			return wrapInt(in.goDiv(st, at, btm), rt)
+			return in.wrap(st, in.goDiv(st, at, btm), rt)
 		case token.REM:
 			in.require(st, Ne(btm, IntC(0)), "integer divide by zero")
-			return wrapInt(in.goRem(st, at, btm), rt)
+			return in.wrap(st, in.goRem(st, at, btm), rt)
 		case token.LSS:
 			return Lt(at, btm)
 		case token.LEQ:
@@ -668,14 +669,14 @@ func (in *Interp) binop(st *State, fr *Frame, x *ssa.BinOp) Value {
 		case token.GEQ:
 			return Ge(at, btm)
 		case token.AND:
-			return wrapInt(in.bitAnd(at, btm), rt)
+			return in.wrap(st, in.bitAnd(at, btm), rt)
 		case token.OR:
-			return wrapInt(in.bitOr(at, btm), rt)
+			return in.wrap(st, in.bitOr(at, btm), rt)
 		case token.XOR:
 			ac, aok := at.ConstInt()
 			bc, bok := btm.ConstInt()
 			if aok && bok {
-				return wrapInt(BigC(new(big.Int).Xor(ac, bc)), rt)
+				return in.wrap(st, BigC(new(big.Int).Xor(ac, bc)), rt)
 			}
 			panic(unsupported("XOR of symbolic operands"))
 		case token.AND_NOT:
@@ -685,7 +686,7 @@ func (in *Interp) binop(st *State, fr *Frame, x *ssa.BinOp) Value {
 				nb := new(big.Int).AndNot(mask, new(big.Int).And(bc, mask))
 				// operate on the unsigned image
 				ua := EMod(at, BigC(pow2(uint(bits))))
-				return wrapInt(in.bitAnd(ua, BigC(nb)), rt)
+				return in.wrap(st, in.bitAnd(ua, BigC(nb)), rt)
 			}
 			panic(unsupported("AND_NOT of symbolic operand"))
 		case token.SHL:
@@ -694,7 +695,7 @@ func (in *Interp) binop(st *State, fr *Frame, x *ssa.BinOp) Value {
 			if k >= 64 {
 				return IntC(0)
 			}
-			return wrapInt(Mul(BigC(pow2(uint(k))), at), rt)
+			return in.wrap(st, Mul(BigC(pow2(uint(k))), at), rt)
 		case token.SHR:
 			k := in.concretize(st, btm, 0, 64)
 			in.require(st, Ge(btm, IntC(0)), "negative shift amount")
@@ -724,12 +725,12 @@ func (in *Interp) unop(st *State, fr *Frame, x *ssa.UnOp) Value {
 		if bt.Info()&types.IsFloat != 0 {
 			return Neg(t)
 		}
-		return wrapInt(Neg(t), bt)
+		return in.wrap(st, Neg(t), bt)
 	case token.XOR:
 		t := v.(*Term)
 		bt := basicOf(x.Type())
 		// ^x = -x-1 (two's complement), then wrap
-		return wrapInt(Sub(Neg(t), IntC(1)), bt)
+		return in.wrap(st, Sub(Neg(t), IntC(1)), bt)
 	case token.ARROW:
 		panic(unsupported("channel receive"))
 	}
@@ -755,6 +756,16 @@ func (in *Interp) rn(e *Term) *Term {
 		return e
 	}
 	t := App(SReal, "RN", e)
+	if os.Getenv("GOSYMEX_DEBUG_RN") != "" {
+		lo, hi := "nil", "nil"
+		if e.Lo != nil {
+			lo = e.Lo.FloatString(3)
+		}
+		if e.Hi != nil {
+			hi = e.Hi.FloatString(3)
+		}
+		fmt.Fprintf(os.Stderr, "RN arg bounds [%s, %s] intreal=%v: %s\n", lo, hi, e.IsIntReal, clip(e.String(), 300))
+	}
 	if t.Lo == nil && t.Hi == nil {
 		// monotone: bounds carry over through rounding of the bounds themselves (outward by one ulp-ish)
 		if e.Lo != nil {
@@ -832,13 +843,13 @@ func (in *Interp) floatBinop(st *State, op token.Token, a, b Value, bt *types.Ba
 		}
 		return in.rn(RDiv(at, btm))
 	case token.LSS:
-		return Lt(at, btm)
+		return cmpWithShadow("<", at, btm)
 	case token.LEQ:
-		return Le(at, btm)
+		return cmpWithShadow("<=", at, btm)
 	case token.GTR:
-		return Gt(at, btm)
+		return cmpWithShadow("<", btm, at)
 	case token.GEQ:
-		return Ge(at, btm)
+		return cmpWithShadow("<=", btm, at)
 	}
 	panic(unsupported("float op " + op.String()))
 }
@@ -851,12 +862,12 @@ func (in *Interp) assumeNote(st *State, c *Term, note string) {
 // truncToInt converts a real term to an Int by truncation toward zero.
 func truncToInt(f *Term) *Term {
 	if f.Lo != nil && f.Lo.Sign() >= 0 {
-		return Floor(f)
+		return floorWithShadow(f)
 	}
 	if f.Hi != nil && f.Hi.Sign() <= 0 {
-		return Neg(Floor(Neg(f)))
+		return Neg(floorWithShadow(Neg(f)))
 	}
-	return Ite(Ge(f, RealC(new(big.Rat))), Floor(f), Neg(Floor(Neg(f))))
+	return Ite(cmpWithShadow("<=", RealC(new(big.Rat)), f), floorWithShadow(f), Neg(floorWithShadow(Neg(f))))
 }
 
 func (in *Interp) convert(st *State, fr *Frame, v Value, from, to types.Type) Value {
@@ -869,7 +880,7 @@ func (in *Interp) convert(st *State, fr *Frame, v Value, from, to types.Type) Va
 		ti, tf, ts := tb.Info()&types.IsInteger != 0, tb.Info()&types.IsFloat != 0, tb.Info()&types.IsString != 0
 		switch {
 		case fi && ti:
-			return wrapInt(v.(*Term), tb)
+			return in.wrap(st, v.(*Term), tb)
 		case fi && tf:
 			if tb.Kind() == types.Float32 {
 				panic(unsupported("float32 conversion"))
@@ -879,7 +890,7 @@ func (in *Interp) convert(st *State, fr *Frame, v Value, from, to types.Type) Va
 			if _, ok := v.(InfV); ok {
 				panic(unsupported("conversion of infinity to integer"))
 			}
-			return wrapInt(truncToInt(v.(*Term)), tb)
+			return in.wrap(st, truncToInt(v.(*Term)), tb)
 		case ff && tf:
 			if tb.Kind() == types.Float32 || fb.Kind() == types.Float32 {
 				panic(unsupported("float32 conversion"))
@@ -1481,4 +1492,35 @@ func (in *Interp) copyOp(st *State, args []Value) Value {
 		in.store(st, p, vals[i])
 	}
 	return IntC(n)
+}
+
+// wrap reduces an exact Int term into the range of basic type b. When the syntactic interval cannot show
+// that the reduction is the identity, the solver is asked under the current path condition (unsat = no
+// overflow possible on this path, so the exact term is kept; anything else keeps the guarded `mod`).
+func (in *Interp) wrap(st *State, t *Term, b *types.Basic) *Term {
+	w := wrapInt(t, b)
+	if w == t || st.Spec || in.Cfg.Fixed != nil || in.Cfg.NoWrapQuery {
+		return w
+	}
+	if _, ok := in.wrapKnown[wrapKey{t.ID, len(st.PC)}]; ok {
+		return t
+	}
+	lo, hi := typeRange(b)
+	if lo == nil {
+		return w
+	}
+	out := Or(Lt(t, BigC(lo)), Gt(t, BigC(hi)))
+	if c, ok := out.ConstBool(); ok {
+		if !c {
+			return t
+		}
+		return w
+	}
+	in.Res.BranchQ++
+	in.Res.WrapQueries++
+	if in.Sol.CheckWith(out) == Unsat {
+		in.Res.WrapElided++
+		return t
+	}
+	return w
 }
